@@ -362,13 +362,16 @@ fn probe_call(call: &Call, st: &mut WStats) {
     }
 }
 
-fn worker(build: &str, seed: u64, n_calls: u64, index: u64, of: u64, trace: bool, only: Option<u64>) -> i32 {
+fn worker(build: &str, seed: u64, n_calls: u64, index: u64, of: u64, trace: bool, only: Option<u64>, from: u64, until: u64) -> i32 {
     let funcs = calls::funcs();
     install_clock();
     let mut st = WStats::default();
     let mut idx = index;
+    while idx < from {
+        idx += of;
+    }
     let stderr = std::io::stderr();
-    while idx < n_calls {
+    while idx < n_calls && idx <= until {
         if let Some(o) = only {
             if idx != o {
                 idx += of;
@@ -572,6 +575,50 @@ fn exec_in_fresh_process(build: &str, call: &Call, pass: &Pass, scratch: &std::p
     }
 }
 
+/// Re-executes, in a fresh worker process, the calls `from..=until` of the
+/// residue class of `until` (every pass of each), i.e. a suffix of the
+/// history of the worker that reported a violation at call `until`.
+/// Returns the violation text if that call fails again.
+fn exec_history(build: &str, seed: u64, n_calls: u64, of: u64, from: u64, until: u64) -> Option<String> {
+    let index = until % of;
+    let o = std::process::Command::new(build_exe(build))
+        .arg("--worker")
+        .arg("--build")
+        .arg(build)
+        .arg("--seed")
+        .arg(seed.to_string())
+        .arg("--calls")
+        .arg(n_calls.to_string())
+        .arg("--index")
+        .arg(index.to_string())
+        .arg("--of")
+        .arg(of.to_string())
+        .arg("--from")
+        .arg(from.to_string())
+        .arg("--until")
+        .arg(until.to_string())
+        .arg("--trace")
+        .output()
+        .ok()?;
+    let text = String::from_utf8_lossy(&o.stdout);
+    let err = String::from_utf8_lossy(&o.stderr);
+    if !o.status.success() {
+        let last = err.lines().rev().find(|l| l.starts_with("BEGIN "))?;
+        let idx: u64 = last.split_whitespace().nth(1)?.parse().ok()?;
+        if idx == until {
+            return Some(format!("crash: {:?} {}", o.status, err.lines().last().unwrap_or("")));
+        }
+        return None;
+    }
+    let stats: Value = serde_json::from_str(text.lines().find_map(|l| l.strip_prefix("STATS "))?).ok()?;
+    for v in stats["violations"].as_array()? {
+        if v["index"].as_u64() == Some(until) {
+            return Some(format!("panic: {}", v["panic"].as_str().unwrap_or("").replace('\n', " | ")));
+        }
+    }
+    None
+}
+
 fn class_of(result: &str) -> &'static str {
     if result.starts_with("panic") {
         "panic"
@@ -692,7 +739,7 @@ fn coordinator(tier: &str, calls_override: Option<u64>, out: &std::path::Path) -
     let seed = simcore::seed_from_env();
     println!("C03 simulation: VERIF_SEED={seed} tier={tier}");
     let t0 = simcore::real_monotonic_s();
-    let n_calls: u64 = calls_override.unwrap_or(if thorough { 6_000_000 } else { 200_000 });
+    let n_calls: u64 = calls_override.unwrap_or(if thorough { 60_000_000 } else { 2_000_000 });
     let workers = simcore::pool::default_workers() as u64;
     let builds = ["relchk", "release"];
     let known = simcore::known::load();
@@ -807,7 +854,50 @@ fn coordinator(tier: &str, calls_override: Option<u64>, out: &std::path::Path) -
         let first = exec_in_fresh_process(build, call, pass, &scratch);
         let class = class_of(&first);
         if class == "ok" || class == "harness" {
-            harness_errors.push(format!("violation at call {idx} pass {pno} ({build}) did not reproduce in a fresh process: {first}"));
+            // not reproducible as a single call: state left by earlier calls of
+            // the same worker takes part. Replay a suffix of the worker's history.
+            let mut hist: Option<(u64, String)> = None;
+            for back in [0u64, 1, 2, 4, 8, 16, 64, 256, 1024, 4096, 1 << 14, 1 << 20] {
+                let from = idx.saturating_sub(back * workers);
+                if let Some(r) = exec_history(build, seed, n_calls, workers, from, *idx) {
+                    hist = Some((from, r));
+                    break;
+                }
+                if from == 0 {
+                    break;
+                }
+            }
+            match hist {
+                Some((from, r)) => {
+                    let sig = format!("history:{}", signature(call, &r));
+                    if !seen_sigs.insert(sig.clone()) {
+                        continue;
+                    }
+                    println!(
+                        "violation class={} build={} sig={} : {} fails only after the calls {}..{} (step {}) of its worker were executed before it -> {}",
+                        class_of(&r), build, sig, call.describe(), from, idx, workers, r
+                    );
+                    if let Some(desc) = known.lookup(PROPERTY, &sig) {
+                        println!("KNOWN-FINDING: property={} {} ({})", PROPERTY, sig, desc);
+                        continue;
+                    }
+                    n_viol += 1;
+                    let path = simcore::verif_root().join("replays").join(format!("C03-{}-{}-{}-history.json", seed, idx, build));
+                    let body = json!({
+                        "property": PROPERTY, "kind": "history", "class": class_of(&r), "signature": sig, "build": build, "seed": seed,
+                        "calls_total": n_calls, "of": workers, "from": from, "until": idx, "result": r,
+                        "describe": format!("calls {}..={} with index % {} == {} generated from seed {}, every pass of each; the last one is {}", from, idx, workers, idx % workers, seed, call.describe()),
+                        "call": call.to_json(), "pass": pass.to_json(),
+                    });
+                    if let Err(e) = simcore::evidence::write_json_atomic(&path, &body) {
+                        eprintln!("harness error: cannot write replay: {e}");
+                        return EXIT_HARNESS;
+                    }
+                    lines.push(format!("VIOLATION property={} replay={}", PROPERTY, path.display()));
+                    exit = EXIT_VIOLATION;
+                }
+                None => harness_errors.push(format!("violation at call {idx} pass {pno} ({build}) did not reproduce in a fresh process: {first}")),
+            }
             continue;
         }
         let (mc, mp) = minimise(build, call.clone(), *pass, class, &scratch);
@@ -987,6 +1077,27 @@ fn replay(path: &str) -> i32 {
         }
     };
     let build = v["build"].as_str().unwrap_or("relchk").to_string();
+    if v["kind"].as_str() == Some("history") {
+        let r = exec_history(
+            &build,
+            v["seed"].as_u64().unwrap_or(0),
+            v["calls_total"].as_u64().unwrap_or(0),
+            v["of"].as_u64().unwrap_or(1),
+            v["from"].as_u64().unwrap_or(0),
+            v["until"].as_u64().unwrap_or(0),
+        );
+        return match r {
+            Some(r) => {
+                println!("replay {}: {} -> {}", path, v["describe"].as_str().unwrap_or(""), r);
+                println!("VIOLATION property={} replay={}", PROPERTY, path);
+                EXIT_VIOLATION
+            }
+            None => {
+                println!("no violation on this tree");
+                EXIT_OK
+            }
+        };
+    }
     let call = match Call::from_json(&v["call"]) {
         Ok(c) => c,
         Err(e) => {
@@ -1033,6 +1144,8 @@ fn main() {
     let mut of = 1u64;
     let mut trace = false;
     let mut only: Option<u64> = None;
+    let mut from = 0u64;
+    let mut until = u64::MAX;
     let mut out = simcore::verif_root().join("evidence").join("C03.json");
     let mut i = 1;
     while i < args.len() {
@@ -1050,6 +1163,8 @@ fn main() {
             "--of" => of = take(&mut i).parse().unwrap_or(1),
             "--trace" => trace = true,
             "--only" => only = take(&mut i).parse().ok(),
+            "--from" => from = take(&mut i).parse().unwrap_or(0),
+            "--until" => until = take(&mut i).parse().unwrap_or(u64::MAX),
             "--out" => out = take(&mut i).into(),
             "--exec-one" => {
                 let f = take(&mut i);
@@ -1088,7 +1203,7 @@ fn main() {
         i += 1;
     }
     if is_worker {
-        std::process::exit(worker(&build, seed, calls_n.unwrap_or(1000), index, of.max(1), trace, only));
+        std::process::exit(worker(&build, seed, calls_n.unwrap_or(1000), index, of.max(1), trace, only, from, until));
     }
     if tier != "quick" && tier != "thorough" {
         eprintln!("unknown tier {tier}");
